@@ -28,14 +28,19 @@ def main():
         rc, out = sh(run, wt); res["demo_with_change_fails"] = rc != 0; res["demo_with_change_tail"] = out[-600:]
         # baseline of the touched package with the change (demo files removed)
         for f in demos: os.remove(os.path.join(wt, pkg, os.path.basename(f)))
-        rc, out = sh("go test -mod=mod -json -vet=off -count=1 ./%s/" % pkg, wt)
+        touched = {pkg}
+        for l in open(d + "/patch.diff"):
+            if l.startswith("+++ b/") and l.strip().endswith(".go"):
+                touched.add(os.path.dirname(l[6:].strip()))
+        res["touched_packages"] = sorted(touched)
+        rc, out = sh("go test -mod=mod -json -vet=off -count=1 " + " ".join("./%s/" % t for t in sorted(touched)), wt)
         passed = set()
         for line in out.splitlines():
             try:
                 e = json.loads(line)
                 if e.get("Action") == "pass" and e.get("Test"): passed.add("%s::%s" % (e["Package"], e["Test"]))
             except Exception: pass
-        want = {b for b in base if b.split("::")[0] == "tkestack.io/galaxy/" + pkg}
+        want = {b for b in base if b.split("::")[0] in {"tkestack.io/galaxy/" + t for t in touched}}
         res["baseline_missing_with_change"] = sorted(want - passed)
         for f in demos: shutil.copy(f, os.path.join(wt, pkg))
         rc, out = sh("git apply -R %s/patch.diff" % d, wt)
@@ -46,4 +51,5 @@ def main():
     res["valid"] = bool(res.get("applies") and res.get("builds") and res.get("demo_with_change_fails") and res.get("demo_without_change_passes") and not res.get("baseline_missing_with_change"))
     json.dump(res, open(d + "/validation.json", "w"), indent=1)
     print(sid, "valid" if res["valid"] else "INVALID", {k: v for k, v in res.items() if k in ("applies", "builds", "demo_with_change_fails", "demo_without_change_passes", "baseline_missing_with_change")})
+main()
 subprocess.run(["git", "-C", "/repo", "worktree", "prune"])
